@@ -2,7 +2,7 @@ SPECIFICATION Spec
 CONSTANTS
   OffsMod = 65536
   Part = "perm8"
-  K = 1
+  K = 2
   Auto = TRUE
 INVARIANTS Emit AutoSatisfiesDecl DeclMeta StringOK
 CHECK_DEADLOCK FALSE
